@@ -27,6 +27,7 @@ pub mod cmd_machine;
 pub mod cmd_bus;
 pub mod cmd_alu;
 pub mod cmd_decode;
+pub mod cmd_load;
 
 fn main() {
   let args: Vec<String> = std::env::args().collect();
@@ -49,6 +50,7 @@ fn main() {
     "decode" => cmd_decode::run(&args[2..]),
     "blocks" => cmd_instr::blocks(&args[2..]),
     "cache-pressure" => cmd_machine::cache_pressure(&args[2..]),
+    "load" => cmd_load::run(&args[2..]),
     "version" => println!("gbv jit={}", cfg!(feature = "jit")),
     _ => { eprintln!("usage: gbv <command> ..."); std::process::exit(2); }
   }
